@@ -32,6 +32,8 @@ func init() {
 				Doc: "The filter list of a route (and every other configuration list) is not built on another object's backing array: no field is assigned `append(<list of another object>, ...)`, and a list taken over as it is from another object is not grown in place afterwards. With 3, 5, 6, 7 ... elements in the shared list two routes built from it run each other's last filter."},
 			{ID: "C06.h", Template: "T-PROV", Required: false, Run: ruleTargetUsesItsPair,
 				Doc: "What runs behind the filters sees what the filters passed on: a function literal of route-function shape built by the module (the Target of the error chain, a wrapped handler) uses the *Request and *Response it is called with, not a pair captured from the enclosing function."},
+			{ID: "C06.i", Template: "T-OWN", Required: true, Run: ruleContainerFiltersReadPerRequest,
+				Doc: "Container filters may be added after handlers and services were registered: Container.containerFilters is read only by functions on the request path (dispatch, the handler HandleWithFilter registers) and by the function that extends it. A shortcut taken at registration time ('no filters yet: register the bare handler') leaves later filters, also one that blocks, out of that path."},
 			{ID: "C06.f", Template: "T-ONCE", Required: true,
 				Doc: "Routing failures: on every path from the branch taken when SelectRoute returned an error to a return, exactly one chain is processed (C06.a decides that this chain holds exactly the container filters). An early return for some kinds of error (a custom router's plain error) answers without the container filters.",
 				Run: ruleC06f},
